@@ -30,6 +30,9 @@ var zzRespTemplates = []zzRespTmpl{
 	{"HTTP/1.1 304 Not Modified\r\nX-A: V\r\nContent-Length: 7\r\n\r\n", 304, false, false, true},
 	{"HTTP/1.1 100 Continue\r\n\r\nHTTP/1.1 201 Created\r\nX-A: V\r\nContent-Length: 3\r\n\r\nBBB", 201, true, false, true},
 	{"HTTP/1.1 200 OK\r\nX-A: V\r\nConnection: close\r\n\r\nBBB", 200, true, true, true},
+	// delimited by the end of the connection without saying so: the connection must still be
+	// reported as not reusable
+	{"HTTP/1.1 200 OK\r\nX-A: V\r\n\r\nBBB", 200, true, true, true},
 }
 
 const zzSecondResp = "HTTP/1.1 202 Accepted\r\nContent-Length: 1\r\n\r\nk"
@@ -177,7 +180,7 @@ func ZZ_C11_H2() {
 		}
 		zz.Assert("status", whole.status == tp.status)
 		zz.Assert("header-value", len(whole.xa) == 1 && whole.xa[0] == hv)
-		zz.Assert("connection-close-flag-only-when-sent", bytes.HasSuffix(whole.hdr, []byte("|close")) == tp.untilEOF)
+		zz.Assert("connection-close-flag-iff-announced-or-close-delimited", bytes.HasSuffix(whole.hdr, []byte("|close")) == tp.untilEOF)
 		if tp.hasBody {
 			zz.Assert("body", bytes.Equal(whole.body, body))
 		} else {
